@@ -1184,7 +1184,7 @@ pub fn work_list(cfg: &RunCfg) -> Option<WorkList> {
             Some(WorkList { fixed, random_enabled: true, feats: corpus::FEATS_C01 | corpus::F_CASE, max_depth: if thorough { 4 } else { 3 } })
         }
         "C14" => {
-            let mut ws: Vec<String> = vec!["(a)\\1", "a", "[ab]", "(?-i:a)b", "a(?-i:b)", "(?=a)A", "(?>a)B", "(a|B)\\1", "\\bA", "(?<=a)B", "a(?-i:a)\\b", "(?i:a)b"]
+            let mut ws: Vec<String> = vec!["a|b|c", "a|B|c|D", "(a)\\1|b(?=c)|c", "a|b|(?-i:c)|d", "(?:a|b|c)d|e|f", "[é]", "[^é]b", "(a)\\1", "a", "[ab]", "(?-i:a)b", "a(?-i:b)", "(?=a)A", "(?>a)B", "(a|B)\\1", "\\bA", "(?<=a)B", "a(?-i:a)\\b", "(?i:a)b"]
                 .iter()
                 .map(|s| s.to_string())
                 .collect();
@@ -1281,6 +1281,9 @@ pub fn work_list(cfg: &RunCfg) -> Option<WorkList> {
                 for f in ["(?-i:X)", "(?-s:X)", "(?-m:X)", "(?-U:X)", "(?s-m:X)", "(?i-s:X)", "(?m-i:X)", "((?i)X)b", "(?:(?s)X).", "((?m)X)$", "(?i)(?-i)X", "(?i:(?-i:X))a", "(?U)(?-U:X)", "(?x: X )", "(?x-i: X # c\n)"].iter() {
                     fixed.push(Item::new(&f.replace("X", body), "flag-scoping"));
                 }
+            }
+            for w in ["(?i)[é]", "(?i:[^é])a", "(?i)[à-ü]\\b", "(?i)a|b|c", "(?i)a|b|c|d\\b", "(?s)a|.|^", "(?m)a|^|$"].iter() {
+                fixed.push(Item::new(w, "witness"));
             }
             for w in ["\\bab\\b", "\\Ba", "a\\b.", "(a|ab)(c|bcd)?", "(?i)a[bc]", "(?m)^a$", "(?s).a", "(?x) a b ", "(?U)a+b", "(?P<n>a)(?P<m>b)?", "a*?b", "[^a]\\b", "\\w+\\b\\d?", "(?:a|\\b)+b", "(\\b)a", "\\b(?i:A)\\B"].iter() {
                 fixed.push(Item::new(w, "witness"));
